@@ -92,6 +92,14 @@ CHECKS["C15"] = dict(
     note="Bounded claim (depth K), both contexts on one clock (relative timing is varied through the symbolic per-clock willingness and the configured delays). Trusted: VHDL-subset semantics, monitors, z3.",
     technique="bounded model checking (z3) of interpreted emitted VHDL with ghost monitors",
 )
+CHECKS["C06"] = dict(
+    category="other",
+    text="(a) the strict VHDL-subset front end (parse, declared-once case-insensitively, reserved words, name resolution with user declarations shadowing predefined names, typing with numeric_std/std_logic_1164 overloads and width rules, out-port reads, case choice rules, sensitivity lists, drivers) is run over the emitted text of the coro / seqbody / expression / std-helper / serialisation families; (b) a 'names' family pushes reserved words, predefined names, case variants, underscore-decorated and generated-looking names through every declaration kind (ports, signals, variables, processes, enum literals, entities) of the whole compiler: accepted => text legal; (c) CrossHair executes the real VhdlScope.declare/complete_setup symbolically over name choices and pre-reserved suffixes (16 conditions, all must be 'Confirmed over all paths'): assigned names distinct, legal, not reserved/predefined.",
+    design_ref="DESIGN.md 3/C06, 2.3",
+    note="(a)/(b) are decided by a deterministic checker (not a solver verdict) and say 'inside the strictly checked subset of VHDL-2008', not 'accepted by every tool'; (c) is the solver-based part. Coverage of std_logic metavalues by case choices is not demanded.",
+    technique="deterministic VHDL-subset legality checker over emitted text + CrossHair on backend name allocation",
+    engine="E-VHDL",
+)
 NA = {}
 manifest = {
     "version": 1,
